@@ -131,50 +131,58 @@ static int xmi2mid_ParseXMI(struct xmi2mid_xmi_ctx *ctx);
 static int xmi2mid_ExtractTracks(struct xmi2mid_xmi_ctx *ctx, int32_t dstTrackNumber);
 static uint32_t xmi2mid_ExtractTracksFromXmi(struct xmi2mid_xmi_ctx *ctx);
 
+/* Source readers: broken files may declare more data than they have,
+ * reading behind the end gives zeros and leaves the cursor at the end */
+static uint32_t xmi2mid_srcleft(struct xmi2mid_xmi_ctx *ctx)
+{
+    return (ctx->src_ptr < ctx->src_end) ? (uint32_t)(ctx->src_end - ctx->src_ptr) : 0;
+}
+
 static uint32_t xmi2mid_read1(struct xmi2mid_xmi_ctx *ctx)
 {
     uint8_t b0;
-    assert(ctx->src_ptr + 1 < ctx->src_end);
+    if (xmi2mid_srcleft(ctx) < 1)
+        return (0);
     b0 = *ctx->src_ptr++;
     return (b0);
 }
 
 static uint32_t xmi2mid_read2(struct xmi2mid_xmi_ctx *ctx)
 {
-    uint8_t b0, b1;
-    assert(ctx->src_ptr + 2 < ctx->src_end);
-    b0 = *ctx->src_ptr++;
-    b1 = *ctx->src_ptr++;
-    return (b0 + ((uint32_t)b1 << 8));
+    uint32_t b0, b1;
+    b0 = xmi2mid_read1(ctx);
+    b1 = xmi2mid_read1(ctx);
+    return (b0 + (b1 << 8));
 }
 
 static uint32_t xmi2mid_read4(struct xmi2mid_xmi_ctx *ctx)
 {
-    uint8_t b0, b1, b2, b3;
-    assert(ctx->src_ptr + 4 < ctx->src_end);
-    b3 = *ctx->src_ptr++;
-    b2 = *ctx->src_ptr++;
-    b1 = *ctx->src_ptr++;
-    b0 = *ctx->src_ptr++;
-    return (b0 + ((uint32_t)b1<<8) + ((uint32_t)b2<<16) + ((uint32_t)b3<<24));
+    uint32_t b0, b1, b2, b3;
+    b3 = xmi2mid_read1(ctx);
+    b2 = xmi2mid_read1(ctx);
+    b1 = xmi2mid_read1(ctx);
+    b0 = xmi2mid_read1(ctx);
+    return (b0 + (b1<<8) + (b2<<16) + (b3<<24));
 }
 
 static uint32_t xmi2mid_read4le(struct xmi2mid_xmi_ctx *ctx)
 {
-    uint8_t b0, b1, b2, b3;
-    assert(ctx->src_ptr + 4 < ctx->src_end);
-    b3 = *ctx->src_ptr++;
-    b2 = *ctx->src_ptr++;
-    b1 = *ctx->src_ptr++;
-    b0 = *ctx->src_ptr++;
-    return (b3 + ((uint32_t)b2<<8) + ((uint32_t)b1<<16) + ((uint32_t)b0<<24));
+    uint32_t b0, b1, b2, b3;
+    b3 = xmi2mid_read1(ctx);
+    b2 = xmi2mid_read1(ctx);
+    b1 = xmi2mid_read1(ctx);
+    b0 = xmi2mid_read1(ctx);
+    return (b3 + (b2<<8) + (b1<<16) + (b0<<24));
 }
 
 static void xmi2mid_copy(struct xmi2mid_xmi_ctx *ctx, char *b, uint32_t len)
 {
-    assert(ctx->src_ptr + len < ctx->src_end);
-    memcpy(b, ctx->src_ptr, len);
-    ctx->src_ptr += len;
+    uint32_t got = xmi2mid_srcleft(ctx);
+    if (got > len)
+        got = len;
+    memcpy(b, ctx->src_ptr, got);
+    memset(b + got, 0, len - got);
+    ctx->src_ptr += got;
 }
 
 #define DST_CHUNK 8192
@@ -218,7 +226,9 @@ static void xmi2mid_write4(struct xmi2mid_xmi_ctx *ctx, uint32_t val)
     ctx->dstrem -= 4;
 }
 
-static void xmi2mid_seeksrc(struct xmi2mid_xmi_ctx *ctx, uint32_t pos) {
+static void xmi2mid_seeksrc(struct xmi2mid_xmi_ctx *ctx, uint64_t pos) {
+    if (pos > ctx->srcsize)
+        pos = ctx->srcsize;
     ctx->src_ptr = ctx->src + pos;
 }
 
@@ -229,8 +239,9 @@ static void xmi2mid_seekdst(struct xmi2mid_xmi_ctx *ctx, uint32_t pos) {
     ctx->dstrem = ctx->dstsize - pos;
 }
 
-static void xmi2mid_skipsrc(struct xmi2mid_xmi_ctx *ctx, int32_t pos) {
-    ctx->src_ptr += pos;
+static void xmi2mid_skipsrc(struct xmi2mid_xmi_ctx *ctx, int64_t pos) {
+    int64_t newpos = (int64_t)(ctx->src_ptr - ctx->src) + pos;
+    xmi2mid_seeksrc(ctx, (newpos < 0) ? 0 : (uint64_t)newpos);
 }
 
 static void xmi2mid_skipdst(struct xmi2mid_xmi_ctx *ctx, int32_t pos) {
@@ -898,6 +909,10 @@ static int32_t xmi2mid_ConvertSystemMessage(struct xmi2mid_xmi_ctx *ctx, const i
 
     i += xmi2mid_GetVLQ(ctx, &ctx->current->len);
 
+    /* The message can't be longer than the rest of the file */
+    if (ctx->current->len > xmi2mid_srcleft(ctx))
+        ctx->current->len = xmi2mid_srcleft(ctx);
+
     if (!ctx->current->len)
         return (i);
 
@@ -1151,7 +1166,7 @@ static uint32_t xmi2mid_ExtractTracksFromXmi(struct xmi2mid_xmi_ctx *ctx) {
             }
 
         rbrn_nodata:
-            xmi2mid_seeksrc(ctx, begin + ((len + 1) & ~1));
+            xmi2mid_seeksrc(ctx, (uint64_t)begin + ((len + 1) & ~1));
             continue;
         }
 
@@ -1187,7 +1202,7 @@ static uint32_t xmi2mid_ExtractTracksFromXmi(struct xmi2mid_xmi_ctx *ctx) {
         num++;
 
         /* go to start of next track */
-        xmi2mid_seeksrc(ctx, begin + ((len + 1) & ~1));
+        xmi2mid_seeksrc(ctx, (uint64_t)begin + ((len + 1) & ~1));
 
         /* clear branch points */
         for (unsigned i = 0; i < 128; ++i)
@@ -1275,7 +1290,7 @@ badfile:    /*_WM_GLOBAL_ERROR(__FUNCTION__, __LINE__, WM_ERR_CORUPT, "(too shor
 
             /* Ok now to start part 2
              * Goto the right place */
-            xmi2mid_seeksrc(ctx, start + ((len + 1) & ~1));
+            xmi2mid_seeksrc(ctx, (uint64_t)start + ((len + 1) & ~1));
             if (xmi2mid_getsrcpos(ctx) + 12 > file_size)
                 goto badfile;
 
